@@ -1926,51 +1926,68 @@ def _gauss_case(rng):
     a = rng.choice(POOL)
     b = rng.choice([None, None] + [x for x in POOL if x != a])
     Kb = rng.choice([2, 3])
-    measure = rng.choice(["gauss", "mix-tg", "mix-tg", "mix-gt", "mix-gt", "delta-t"])
+    measure = rng.choice(["gauss", "mix-tg", "mix-tg", "mix-gt", "mix-gt", "delta-t", "delta-t", "delta2"])
     integrand = rng.choice(["num", "tens", "lin", "lin", "quad", "gauss"])
-    if measure == "gauss":
+    if measure in ("gauss", "delta2"):
         b = None
-    cands = ["x"] + ([a] if True else []) + ([b] if b else [])
+    if measure == "delta2":
+        integrand = rng.choice(["num", "tens", "lin", "xy", "xy"])
+    disc = [a] + ([b] if b else [])
+    # `pre`: discrete names over which the MEASURE is reduced lazily (logaddexp) before Integrate sees it: the
+    # measure then carries its own binder (normalize_integrate_contraction / eager_integrate_gaussianmixture
+    # must integrate under it: /repo 9f0848d, f38a442)
+    pre = []
+    if measure != "gauss" and rng.random() < 0.35:
+        pre = [v for v in disc if rng.random() < 0.6] or [rng.choice(disc)]
+    reals = ["x", "y"] if measure == "delta2" else ["x"]
+    cands = reals + [v for v in disc if v not in pre]
     R = [v for v in cands if rng.random() < 0.6] or [rng.choice(cands)]
-    if measure == "delta-t" and "x" not in R:
-        R.append("x")
-    if b and measure.startswith("mix") and rng.random() < 0.15:
-        # both discrete names of the weight table reduced with an integrand without discrete inputs: the mixture's
-        # own logaddexp binder must be kept by eager_integrate_gaussianmixture (fixed in /repo f38a442)
+    if measure in ("delta-t", "delta2"):
+        R = sorted(set(R) | set(reals))
+    if b and measure.startswith("mix") and not pre and rng.random() < 0.15:
+        # both discrete names of the weight table reduced with an integrand without discrete inputs (f38a442)
         integrand = rng.choice(["quad", "gauss", "num"])
         R = sorted(set(R) | {a, b})
-    c = dict(K=K, Kb=Kb, a=a, b=b, measure=measure, integrand=integrand, R=sorted(R),
+    wrapper = rng.choice(["none", "none", "reduce-same", "contr-same", "fac-same", "subs-collide"])
+    if a in pre and integrand in ("tens", "lin"):
+        wrapper = "none"      # the integrand's free `a` is a different variable from the measure's bound `a`
+    c = dict(K=K, Kb=Kb, a=a, b=b, measure=measure, integrand=integrand, R=sorted(R), pre=sorted(pre),
              d=[[round(rng.uniform(-1, 1), 2) for _ in range(Kb if b else 1)] for _ in range(K)],
              m=[round(rng.uniform(-2, 2), 2) for _ in range(K)],
+             m2=[round(rng.uniform(-2, 2), 2) for _ in range(K)],
              p=[round(rng.uniform(0.5, 3), 2) for _ in range(K)],
              w=[round(rng.uniform(-2, 2), 2) for _ in range(K)],
              c0=round(rng.uniform(-2, 2), 2), q=round(rng.uniform(0.5, 2), 2), a0=round(rng.uniform(-1, 1), 2),
              x0=round(rng.uniform(-1, 1), 2), v=[round(rng.uniform(-3, 3), 2) for _ in range(3)],
-             wrapper=rng.choice(["none", "none", "reduce-same", "contr-same", "fac-same", "subs-collide"]),
-             idx=[rng.randrange(8) for _ in range(3)])
+             wrapper=wrapper, idx=[rng.randrange(8) for _ in range(3)])
     return c
 
 
 def _gauss_oracle(c):
     """-> (names of the free discrete inputs in order, ndarray over them) of Integrate(...) itself (no wrapper):
-    closed-form Gaussian moments times the weight table, summed over the reduced discrete names"""
+    closed-form moments of each component times the weight table, summed over every bound discrete name (those the
+    measure was pre-reduced over and those in the Integrate's reduced set)"""
     import math
     K, a, b = c["K"], c["a"], c["b"]
     m, p, w = np.array(c["m"]), np.array(c["p"]), np.array(c["w"])
     kind = c["integrand"]
+    uses_w = kind in ("tens", "lin")
     c0 = np.zeros(K); c1 = np.zeros(K); c2 = np.zeros(K)
     if kind == "num":
         c0 += c["c0"]
     elif kind == "tens":
-        c0 += w
+        c0 += 1.0
     elif kind == "lin":
-        c1 += w
+        c1 += 1.0
     elif kind == "quad":
         c2 += 1.0
-    else:  # gaussian integrand  -q/2 (x - a0)^2
+    elif kind == "gauss":  # gaussian integrand  -q/2 (x - a0)^2
         q, a0 = c["q"], c["a0"]
         c2 += -0.5 * q; c1 += q * a0; c0 += -0.5 * q * a0 * a0
-    if c["measure"] == "delta-t":
+    if c["measure"] == "delta2":
+        m2 = np.array(c["m2"])
+        M = m * m2 if kind == "xy" else c0 + c1 * m
+    elif c["measure"] == "delta-t":
         M = c0 + c1 * m + c2 * m * m                      # point mass at x = m_i
     elif "x" in c["R"]:
         Z = np.sqrt(2 * math.pi / p)
@@ -1978,6 +1995,9 @@ def _gauss_oracle(c):
     else:
         x0 = c["x0"]
         M = np.exp(-0.5 * p * (x0 - m) ** 2) * (c0 + c1 * x0 + c2 * x0 * x0)
+    same_var = a not in c["pre"]          # the integrand's `a` is the measure's `a` unless the measure binds it itself
+    if uses_w and same_var:
+        M = M * w
     if c["measure"] == "gauss":
         T = M.reshape(K, 1)
     else:
@@ -1985,44 +2005,61 @@ def _gauss_oracle(c):
     names = [a] + ([b] if b else [])
     if not b:
         T = T[:, 0]
+    bound = set(c["R"]) | set(c["pre"])
     for ax in reversed(range(len(names))):
-        if names[ax] in c["R"]:
+        if names[ax] in bound:
             T = T.sum(axis=ax)
-    return [nm_ for nm_ in names if nm_ not in c["R"]], np.asarray(T)
+    rest = [nm_ for nm_ in names if nm_ not in bound]
+    if uses_w and not same_var:
+        T = np.multiply.outer(w, np.asarray(T))           # free `a` of the integrand comes first
+        rest = [a] + rest
+    return rest, np.asarray(T)
 
 
 def _gauss_build(c, ren=None):
-    """the funsor term (under the ACTIVE interpretation); `ren` renames the reduced discrete names (twin)"""
+    """the funsor term (under the ACTIVE interpretation); `ren` renames the bound discrete names (twin)"""
     from funsor.gaussian import Gaussian
     from funsor.delta import Delta
     ren = ren or {}
     K, Kb = c["K"], c["Kb"]
-    a = ren.get(c["a"], c["a"])
+    a = ren.get(c["a"], c["a"])                          # the measure's name
+    a_f = c["a"] if c["a"] in c["pre"] else a            # the integrand's name (free if the measure binds its own)
     b = ren.get(c["b"], c["b"]) if c["b"] else None
     ia = OrderedDict([(a, Bint[K])])
     m, p, w = np.array(c["m"]), np.array(c["p"]), np.array(c["w"])
     x = Variable("x", Real)
-    if c["measure"] == "delta-t":
-        core = Delta("x", Tensor(m, ia))
+    dins = OrderedDict([(a, Bint[K])] + ([(b, Bint[Kb])] if b else []))
+    d = np.array(c["d"]) if b else np.array(c["d"])[:, 0]
+    if c["measure"] == "delta2":
+        # the weights live in a separate Tensor (a Delta's own log_density is dropped by Delta.eager_reduce when the
+        # Delta is reduced over its variable through exp/reduce instead of Integrate: C14's subject, reported)
+        lm = Delta((("x", (Tensor(m, ia), Tensor(np.zeros(K), ia))),
+                    ("y", (Tensor(np.array(c["m2"]), ia), Tensor(np.zeros(K), ia))))) + Tensor(d, ia)
     else:
-        core = Gaussian(mean=m.reshape(K, 1), precision=p.reshape(K, 1, 1),
-                        inputs=OrderedDict([(a, Bint[K]), ("x", Real)]))
-    if c["measure"] == "gauss":
-        lm = core
-    else:
-        dins = OrderedDict([(a, Bint[K])] + ([(b, Bint[Kb])] if b else []))
-        d = np.array(c["d"]) if b else np.array(c["d"])[:, 0]
-        disc = Tensor(d, dins)
-        lm = (core + disc) if c["measure"] == "mix-gt" else (disc + core)
+        if c["measure"] == "delta-t":
+            core = Delta("x", Tensor(m, ia))
+        else:
+            core = Gaussian(mean=m.reshape(K, 1), precision=p.reshape(K, 1, 1),
+                            inputs=OrderedDict([(a, Bint[K]), ("x", Real)]))
+        if c["measure"] == "gauss":
+            lm = core
+        else:
+            disc = Tensor(d, dins)
+            lm = (core + disc) if c["measure"] == "mix-gt" else (disc + core)
+    if c["pre"]:
+        lm = lm.reduce(ops.logaddexp, frozenset(ren.get(v, v) for v in c["pre"]))
     kind = c["integrand"]
+    wf = Tensor(w, OrderedDict([(a_f, Bint[K])]))
     if kind == "num":
         f = Number(c["c0"])
     elif kind == "tens":
-        f = Tensor(w, ia)
+        f = wf
     elif kind == "lin":
-        f = x * Tensor(w, ia)
+        f = x * wf
     elif kind == "quad":
         f = x * x
+    elif kind == "xy":
+        f = x * Variable("y", Real)
     else:
         f = Gaussian(mean=np.array([c["a0"]]), precision=np.array([[c["q"]]]), inputs=OrderedDict(x=Real))
     R = frozenset(ren.get(v, v) for v in c["R"])
@@ -2032,7 +2069,7 @@ def _gauss_build(c, ren=None):
 def _gauss_wrap(c, I, names, E, ren=None):
     """an enclosing construct that re-uses the name of a reduced (bound) discrete variable -> (term, names, expected)"""
     ren = ren or {}
-    Rd = [v for v in c["R"] if v != "x"]
+    Rd = [v for v in c["R"] if v not in ("x", "y")] + list(c.get("pre", []))
     wr = c["wrapper"]
     if wr == "none" or not Rd:
         return I, names, E
@@ -2064,8 +2101,10 @@ def gauss_integrate_stream(ctx, ncases):
     for _ in range(ncases):
         c = _gauss_case(rng)
         names0, E0 = _gauss_oracle(c)
-        Rd = [v for v in c["R"] if v != "x"]
+        Rd = [v for v in c["R"] if v not in ("x", "y")] + list(c["pre"])
         ren = {v: f"u{k + 1}" for k, v in enumerate(Rd)}
+        if c["pre"]:
+            ctx.count("gauss:measure-pre-reduced:" + c["measure"])
         ctx.count(f"gauss:{c['measure']}:{c['integrand']}")
         ctx.count("gauss:reduced:" + ("mixed" if Rd and "x" in c["R"] else "real-only" if not Rd else "discrete-only"))
         ctx.count(f"gauss:wrapper:{c['wrapper']}")
@@ -2272,6 +2311,71 @@ def gauss_contraction_stream(ctx, ncases):
                      expected=f"inputs {sorted(set(names) | {'x'})}, value {np.asarray(E).tolist()} at x={c['x0']}",
                      got=bad[2], python=GCON_PY.format(case=c))
         ctx.case(nontrivial_key=repr(sorted(c.items(), key=str)) if got_any and c["Rin"] else None)
+
+
+KF4 = "KF-contraction-mixed-redop-binder-merge"
+KF4_PY = """import numpy as np
+from collections import OrderedDict
+import funsor, funsor.ops as ops
+from funsor.domains import Bint, Real
+from funsor.gaussian import Gaussian
+from funsor.cnf import Contraction
+from funsor.tensor import Tensor
+from funsor.terms import Variable
+T = np.array([0.3, -1.2, 0.7]); MEAN = np.array([[0.5], [-1.0], [2.0]]); PREC = np.array([[[1.0]], [[2.0]], [[0.5]]])
+W = np.array([0.1, -0.4]); x0 = 0.3
+t = Tensor(T, OrderedDict(k=Bint[3])); g = Gaussian(mean=MEAN, precision=PREC, inputs=OrderedDict(k=Bint[3], x=Real))
+w = Tensor(W, OrderedDict(j=Bint[2]))
+mix = (t + g).reduce(ops.logaddexp, 'k')
+r = Contraction(ops.max, ops.add, frozenset({Variable('j', Bint[2])}), mix, w)(x=Tensor(np.array(x0)))
+want = np.logaddexp.reduce(T - 0.5 * PREC[:, 0, 0] * (x0 - MEAN[:, 0]) ** 2) + W.max()
+print(r, 'expected', want)
+FAILS = abs(float(r.data) - want) > 1e-6
+"""
+
+
+def mixed_redop_stream(ctx):
+    """Contraction(max|min, add, {j}, mix, w) with mix a logaddexp-reduced mixture: normalize_contraction_commute_joint
+    merges the mixture's binder under the OUTER op (max over k and j instead of max_j logsumexp_k)."""
+    from funsor.gaussian import Gaussian
+    rng = ctx.rng
+    hit = None
+    tried = 0
+    for _ in range(6):
+        K, J = rng.choice([2, 3]), rng.choice([2, 3])
+        k, j = rng.sample(POOL, 2)
+        T = np.array([round(rng.uniform(-1, 1), 2) for _ in range(K)])
+        mean = np.array([round(rng.uniform(-2, 2), 2) for _ in range(K)])
+        prec = np.array([round(rng.uniform(0.5, 3), 2) for _ in range(K)])
+        W = np.array([round(rng.uniform(-1, 1), 2) for _ in range(J)])
+        x0 = round(rng.uniform(-1, 1), 2)
+        t = Tensor(T, OrderedDict([(k, Bint[K])]))
+        g = Gaussian(mean=mean.reshape(K, 1), precision=prec.reshape(K, 1, 1), inputs=OrderedDict([(k, Bint[K]), ("x", Real)]))
+        w = Tensor(W, OrderedDict([(j, Bint[J])]))
+        mix = (t + g).reduce(ops.logaddexp, k)
+        lse = np.logaddexp.reduce(T - 0.5 * prec * (x0 - mean) ** 2)
+        for red, agg in ((ops.max, np.max), (ops.min, np.min)):
+            for terms in ((mix, w), (w, mix)):
+                tried += 1
+                r = Contraction(red, ops.add, frozenset({Variable(j, Bint[J])}), *terms)
+                if set(r.inputs) != {"x"}:
+                    ctx.fail("input", "C05.mixed-redop-inputs", witness={"k": k, "j": j}, expected="inputs {x}",
+                             got=str(sorted(r.inputs)), python=KF4_PY)
+                    return
+                v = r(x=Tensor(np.array(x0)))
+                want = float(lse + agg(W))
+                if isinstance(v, Tensor) and abs(float(v.data) - want) > 1e-6 and hit is None:
+                    hit = (red.__name__ if hasattr(red, "__name__") else str(red), float(v.data), want)
+    ctx.count(f"dedicated:{KF4}:" + ("reproduced" if hit else "not-reproduced"))
+    what = None
+    if hit:
+        what = (f"Contraction(ops.{hit[0]}, ops.add, {{j}}, (t+g).reduce(logaddexp,k), w) evaluates to {hit[1]:.6g} (the {hit[0]} over "
+                f"k AND j) instead of {hit[2]:.6g} = {hit[0]}_j(logsumexp_k(t_k+g_k(x)) + w_j): normalize_contraction_commute_joint "
+                f"merges reduced_vars | mixture.reduced_vars under the outer op")
+    listed = ctx.known(KF4, hit is not None, what)
+    if hit and not listed:
+        ctx.fail("input", "C05.contraction-mixed-redop", witness={"op": hit[0]}, expected=str(hit[2]), got=str(hit[1]),
+                 python=KF4_PY)
 
 
 GCON_PY = """import sys
@@ -2510,7 +2614,8 @@ def correspond(ctx):
     thread_stream(ctx)
     gauss_integrate_stream(ctx, 200 if quick else 2000)
     gauss_contraction_stream(ctx, 120 if quick else 1200)
-    for name, fid, stream in (("shared-binder", KF, shared_binder_stream), ("approximate", KF2, approximate_stream)):
+    for name, fid, stream in (("shared-binder", KF, shared_binder_stream), ("approximate", KF2, approximate_stream),
+                              ("mixed-redop", KF4, mixed_redop_stream)):
         try:
             stream(ctx)
         except DECLINE + (RecursionError,) as e:
